@@ -39,7 +39,7 @@ func init() {
 			}
 			return reGraph.MatchString(n)
 		},
-		Siblings: "C11 (node maps), C03 (fields)",
+		Siblings: "C03 (fields), C04 (tape), C06 (duplicates), C11 (node maps), C12 (position space), C17 (errors) — other labels of the same per-case units",
 		Assumptions: []string{
 			"isomorphism is carried per object: every conversion returns the map entry, a new entry is a fresh object registered in both maps before anything it refers to is converted, and no call changes an existing entry; injectivity follows from freshness, the global statement by induction over the (possibly cyclic) graph, which is not machine-checked as one formula",
 			"an object reached again while its own conversion is still running is returned through the memo entry with its declaration and data not yet filled in; the postconditions speak about the completed call only",
